@@ -569,7 +569,7 @@ def run (trace : String) : String × Bool :=
     let news := evs.filterMap fun e => match e with | .new c _ => some c | _ => none
     let exits := evs.filterMap fun e => match e with | .exit c => some c | _ => none
     let holds := news.all fun c => exits.contains c
-    match firstRejected [] evs 0 with
+    match firstRejected ⟨true⟩ [] evs 0 with
     | some i => (s!"reject@{i}:{toks.getD i "?"}", holds)
     | none => ("live=0", holds)
 
